@@ -15,6 +15,7 @@ import (
 	"github.com/WICG/webpackage/go/verifhook"
 	"verifsim/core"
 	"verifsim/fixtures"
+	"verifsim/ref/refmice"
 )
 
 // LSXG is the logical signed exchange a simulated publisher produces.
@@ -34,6 +35,12 @@ type LSXG struct {
 	CertURL     string
 	Entropy     byte
 	DirectMap   bool
+	// Collide: the caller's header map holds keys that differ only in letter case
+	// (set directly on the map, with different values).
+	Collide int
+	// ForeignMI: the publisher protects the payload with the OTHER format version's
+	// integrity scheme, consistently (encoding, digest header, Content-Encoding).
+	ForeignMI bool
 	// SignerObj, when set, is the Signer object to use (a publisher reusing one
 	// Signer for several exchanges); otherwise a fresh one is built per call.
 	SignerObj *signedexchange.Signer
@@ -217,14 +224,27 @@ func (l *LSXG) Unsigned() *signedexchange.Exchange {
 	if l.Version != "1b3" {
 		rq = mkHeader(l.ReqHeaders, l.DirectMap)
 	}
-	return signedexchange.NewExchange(l.Ver(), l.URL, l.Method, rq, l.Status, mkHeader(l.RespHeaders, l.DirectMap), append([]byte(nil), l.Payload...))
+	rs := mkHeader(l.RespHeaders, l.DirectMap)
+	for i, k := range []string{"x-uniq", "X-UNIQ", "x-uniQ"}[:l.Collide] {
+		rs[k] = []string{fmt.Sprintf("collide-%d", i)}
+	}
+	return signedexchange.NewExchange(l.Ver(), l.URL, l.Method, rq, l.Status, rs, append([]byte(nil), l.Payload...))
 }
 
 // Sign runs the publisher: MI-encode, sign, serialize. It records what was
 // signed. The returned exchange is the publisher's in-memory object.
 func (l *LSXG) Sign() (*signedexchange.Exchange, error) {
 	e := l.Unsigned()
-	if err := e.MiEncodePayload(l.RS); err != nil {
+	if l.ForeignMI {
+		d := refmice.Draft02
+		if l.Version == "1b1" {
+			d = refmice.Draft03
+		}
+		dg, stream := refmice.Encode(d, e.Payload, l.RS)
+		e.Payload = stream
+		e.ResponseHeaders.Add("Content-Encoding", d.Name())
+		e.ResponseHeaders.Add(d.HeaderName(), dg)
+	} else if err := e.MiEncodePayload(l.RS); err != nil {
 		return nil, fmt.Errorf("MiEncodePayload: %v", err)
 	}
 	sg := l.SignerObj
